@@ -213,6 +213,17 @@ pub fn poly_case(cx: &mut Ctx, n: u64, case: &Value) {
             }
         }
         let p0 = Polygon::new(ext.clone(), holes.clone());
+        {
+            // f32 scalar type (lattice coordinates are exact; the accumulated sums are not: tolerance 1e-4 of the extent)
+            use geo::MapCoords;
+            let pf = p0.map_coords(|c| geo::Coord { x: c.x as f32, y: c.y as f32 });
+            if extent0 <= 16.0 {
+                match guard(|| pf.centroid()) {
+                    Ok(Some(c)) if (c.x() as f64 - wx).abs() <= 1e-4 * extent0.max(8.0) && (c.y() as f64 - wy).abs() <= 1e-4 * extent0.max(8.0) => cx.ok("polygon_centroid_f32"),
+                    other => cx.bad("C06", "polygon_centroid_f32", case, json!({"got": format!("{other:?}"), "want": [wx, wy]})),
+                }
+            }
+        }
         // the property promises equivariance under translation and uniform scaling (similarity maps), not under shears
         let sims: Vec<&crate::gj::ExactMap> = maps.iter().filter(|m| m.similarity().is_some()).collect();
         let extent = ext.0.iter().fold(1f64, |a, c| a.max(c.x.abs()).max(c.y.abs()));
